@@ -34,7 +34,9 @@ import (
 // ---- adapters (only uses of unexported collector state in this file) -------------------------
 
 // c04adInject installs sampler s for samplerKey in worker w. Only while the worker is parked.
-func c04adInject(w *CollectorWorker, samplerKey string, s sample.Sampler) { w.datasetSamplers[samplerKey] = s }
+func c04adInject(w *CollectorWorker, samplerKey string, s sample.Sampler) {
+	w.datasetSamplers[samplerKey] = s
+}
 
 // ---- logging sampler shim --------------------------------------------------------------------
 
